@@ -446,8 +446,37 @@ def streams(rng, tier, boost):
         out.append(('soup', rand_soup(rng)))
     for _ in range((500 if tier == 'quick' else 8000) * boost):
         out.append(('programs', dict(kind='prog', prog=rand_prog(rng, rng.choice([1, 2, 2, 3])))))
+    # shapes kept on every run because a recorded finding lives there (see known_findings.json)
+    for prog in KNOWN_SHAPES:
+        out.append(('programs', dict(kind='prog', prog=prog)))
     out += engine_streams(rng, tier, boost)
     return out
+
+
+# \def\za{\newcommand{\zb}[1]{W ##1}}\za\zb{W'}: a \newcommand with parameters written in the body of a PARAMETERLESS \def
+KNOWN_SHAPES = [
+    [['def', False, 40, 0, None, [['def', True, 41, 1, None, [['word', 3], ['param2', 1]], {'kind': 'newcommand'}]], {'kind': 'def'}],
+     ['call', 40, None, [], {}], ['call', 41, None, [[['word', 5]]], {}]],
+]
+
+
+def nested_newcommand_in_parameterless_def(prog):
+    """does the program write a newcommand-style definition with parameters directly in the body of a parameterless def?"""
+    def walk(ns):
+        for n in ns:
+            if isinstance(n, list) and n and n[0] == 'def':
+                _, g, name, np, default, body, how = n
+                if np == 0 and default is None and (how or {}).get('kind', 'def') == 'def':
+                    for m in body:
+                        if isinstance(m, list) and m and m[0] == 'def' and m[3] > 0 and (m[6] or {}).get('kind') in ('newcommand', 'renewcommand'):
+                            return True
+                if walk(body):
+                    return True
+            elif isinstance(n, list):
+                if walk([x for x in n if isinstance(x, list)]):
+                    return True
+        return False
+    return walk(prog)
 
 
 # ---- the expansion engine (Model/Engine.v) against TeX.__iter__ on token lists ------------------
@@ -769,6 +798,8 @@ def judge(case, io, mo):
     if io == exp:
         return None
     kind = 'raises' if io[:1] in ([-2], ['raise']) else ('hang' if io[:1] == ['hang'] else 'wrong-text')
+    if kind == 'wrong-text' and nested_newcommand_in_parameterless_def(case['prog']):
+        kind = 'nested-newcommand-in-parameterless-def'
     return dict(violation=True, key='C02:prog:' + kind, expected=exp, what='document text %s, TeX rules give %s' % (str(io[:2])[:300], str(exp[:2])[:300]))
 
 
